@@ -112,6 +112,15 @@ def feasible_items(tier):
         for fn in F.facility_names(sp)[:2]:
             for cal in ([1], [2], [1, 2], [0, 3]):
                 out.append((sp, {"rule": "TSLACK", "res_absence": {fn: cal}, "max_time": F.seq_bound(sp) + 8}))
+    # a cabinet whose frame (0.1) and door (0.2) are made in a part shop of 0.3: the finished door stays there until the cabinet is assembled, the frame just fits
+    for sizes, cap in (((0.1, 0.2), 0.3), ((0.2, 0.1), 0.3), ((0.7, 0.1), 0.8), ((1.0, 2.0), 3.0)):
+        for order in ((0, 1), (1, 0)):
+            sp = {"tasks": [{"name": "make_frame", "work": 2.0, "nf": True}, {"name": "make_door", "work": 1.0, "nf": True}, {"name": "assemble", "work": 1.0, "nf": True}], "links": [[0, 2, "FS"], [1, 2, "FS"], [order[1], order[0], "FS"]],
+                  "components": [{"name": "cabinet", "tasks": [2], "children": [1, 2], "space": 1.0}, {"name": "frame", "tasks": [0], "space": sizes[0]}, {"name": "door", "tasks": [1], "space": sizes[1]}],
+                  "workplaces": [{"name": "shop", "cap": cap, "targets": [0, 1], "facilities": [{"name": "bench", "skills": {"make_frame": 1.0, "make_door": 1.0}}]},
+                                 {"name": "hall", "cap": 5.0, "targets": [2], "facilities": [{"name": "jig", "skills": {"assemble": 1.0}}]}],
+                  "teams": [{"name": "TM0", "targets": [0, 1, 2], "workers": [{"name": "W0", "skills": {"make_frame": 1.0, "make_door": 1.0, "assemble": 1.0}, "fskills": {"bench": 1.0, "jig": 1.0}, "cost": 1.0}]}]}
+            out.append((sp, {"rule": "TSLACK", "max_time": 24}))
     # a two-pair machine task whose last work is done by one pair while the other pair's machine is away; the follow-up task needs exactly that machine
     for w0 in (3.0, 5.0):
         for cal in ([1], [2], [1, 2]):
@@ -205,6 +214,14 @@ def history_items(tier):
     for fl in list(F.flows(2, ("FS", "SS"), (2, 3)))[:: (2 if tier == "quick" else 1)]:
         out.append(F.with_teams(fl, "POOL1"))
         out.append(F.with_teams(fl, "DED"))
+    # one part passing three stations linked by conveyors; the organization lists the stations downstream-first
+    names = ["cut", "weld", "paint"]
+    line3 = {"tasks": [{"name": nm, "work": 2.0, "nf": True} for nm in names], "links": [[0, 1, "FS"], [1, 2, "FS"]], "components": [{"name": "part", "tasks": [0, 1, 2], "space": 1.0}],
+             "workplaces": [{"name": "st3", "cap": 1.0, "targets": [2], "inputs": [1], "facilities": [{"name": "f3", "skills": {"paint": 1.0}}]},
+                            {"name": "st2", "cap": 1.0, "targets": [1], "inputs": [2], "facilities": [{"name": "f2", "skills": {"weld": 1.0}}]},
+                            {"name": "st1", "cap": 1.0, "targets": [0], "facilities": [{"name": "f1", "skills": {"cut": 1.0}}]}],
+             "teams": [{"name": "TM0", "targets": [0, 1, 2], "workers": [{"name": "W0", "skills": {nm: 1.0 for nm in names}, "fskills": {"f1": 1.0, "f2": 1.0, "f3": 1.0}, "cost": 1.0}]}]}
+    out.append(line3)
     # three tails with different due times (the backward run with due times attaches helper tasks)
     sp = F.with_teams({"tasks": [{"name": "T0", "work": 2.0, "due": 6}, {"name": "T1", "work": 1.0, "due": 3}, {"name": "T2", "work": 2.0, "due": 4}], "links": []}, "DED")
     out.append(sp)
